@@ -272,6 +272,31 @@ def run(ctx):
                     todo.append(r_[1])
     r3.check(bool(vals) and len(seen_v) >= 3 and not fillers, "validate():no path is computed", f"none of the {len(seen_v)} functions validation runs through asks for an element's path", se.methods["validate"].loc(),
              why_fail=f"path computed during validation: {fillers}")
+    # the same holds for what runs implicitly at any moment - formatting an element for a log line or a debugger,
+    # hashing or comparing it: while the tree is being assembled bottom-up such a call would cache a path that lacks the
+    # ancestors attached later (only an element's OWN re-parenting drops its cache)
+    IMPLICIT = ("__repr__", "__str__", "__unicode__", "__format__", "__hash__", "__eq__", "__lt__", "__bool__", "__len__")
+    todo = [mf for mn in IMPLICIT for mf in by_name.get(mn, [])]
+    seen_i, fillers_i = set(), []
+    while todo:
+        mf = todo.pop()
+        if mf.fq in seen_i:
+            continue
+        seen_i.add(mf.fq)
+        for c in ast.walk(mf.node):
+            if not isinstance(c, ast.Call):
+                continue
+            cn = call_name(c)
+            if cn == "get_xpath":
+                fillers_i.append(f"{mf.qualname}:{norm(c)[:30]}")
+            elif isinstance(c.func, ast.Attribute) and norm(c.func.value) in ("self", "super()"):
+                todo += by_name.get(cn, [])
+            elif isinstance(c.func, ast.Name):
+                r_ = repo.resolve_name(mf.module, cn)
+                if r_ and r_[0] == "func":
+                    todo.append(r_[1])
+    r3.check(bool(seen_i) and not fillers_i, "implicit methods:no path is computed", f"none of the {len(seen_i)} functions behind repr / str / hash / comparison of an element asks for its path",
+             se.methods["validate"].loc(), why_fail=f"path computed (and cached) by: {fillers_i}")
     rules.append(r3)
 
     # ------------------------------------------------------------------ R4
